@@ -389,6 +389,175 @@ def ext_enc(kind, arg):
     return hx(bytes(obj.compose())[4:])
 
 
+# ---- SSH ------------------------------------------------------------------------------------------------
+def ssh_pad(L):
+    from cryptoparser.ssh.record import SshRecordInit
+    from cryptoparser.ssh.subprotocol import SshMessageBase
+
+    class Dummy(SshMessageBase):   # a message whose payload has exactly L bytes
+        @classmethod
+        def _parse(cls, parsable):
+            raise NotImplementedError()
+
+        def compose(self):
+            return b'\x05' * int(L)
+
+        @classmethod
+        def get_message_code(cls):
+            return 5
+    b = bytes(SshRecordInit(Dummy()).compose())
+    plen, pad = int.from_bytes(b[:4], 'big'), b[4]
+    if len(b) != 4 + plen or b[5 + int(L):] != bytes(pad):
+        raise ValueError('record layout')
+    return '%d %d' % (pad, plen)
+
+
+def mpint_spec(z):
+    return c_sshmpint(z)
+
+
+_KEX_VECTORS = ['SshKexAlgorithmVector', 'SshHostKeyAlgorithmVector', 'SshEncryptionAlgorithmVector', 'SshEncryptionAlgorithmVector',
+                'SshMacAlgorithmVector', 'SshMacAlgorithmVector', 'SshCompressionAlgorithmVector', 'SshCompressionAlgorithmVector']
+
+
+def _ssh_names(vector_name, names_hex):
+    from harness import gen_tables
+    enum_cls = gen_tables.ssh_name_enums()[vector_name]['enum']
+    out = []
+    for h in ([] if names_hex == '-' else names_hex.split(',')):
+        name = bytes.fromhex(h).decode('ascii')
+        ms = [m for m in enum_cls if m.value.code == name]
+        out.append(ms[0] if ms else name)
+    return out
+
+
+def kex_enc(cookie, lists, follows, reserved):
+    from cryptoparser.ssh.subprotocol import SshKeyExchangeInit
+    ls = lists.split('|')
+    args = [_ssh_names(v, l) for v, l in zip(_KEX_VECTORS, ls[:8])]
+    from cryptoparser.common.classes import LanguageTag
+    langs = [[LanguageTag.parse_exact_size(bytes.fromhex(h)) for h in ([] if l == '-' else l.split(','))] for l in ls[8:10]]
+    k = SshKeyExchangeInit(*args, languages_client_to_server=langs[0], languages_server_to_client=langs[1],
+                           first_kex_packet_follows=int(follows), cookie=bytes.fromhex(cookie), reserved=int(reserved))
+    return hx(k.compose())
+
+
+def _show_vec(v):
+    items = []
+    for x in v:
+        if isinstance(x, str):
+            items.append(x.encode('ascii').hex())
+        elif hasattr(x, 'value') and hasattr(x.value, 'code'):
+            items.append(x.value.code.encode('ascii').hex())
+        else:
+            items.append(bytes(x.compose()).hex())
+    return ','.join(items) or '-'
+
+
+def kex_dec(h):
+    from cryptoparser.ssh.subprotocol import SshKeyExchangeInit
+    k, _ = SshKeyExchangeInit.parse_immutable(bytes.fromhex(h))
+    vs = [k.kex_algorithms, k.host_key_algorithms, k.encryption_algorithms_client_to_server, k.encryption_algorithms_server_to_client,
+          k.mac_algorithms_client_to_server, k.mac_algorithms_server_to_client, k.compression_algorithms_client_to_server,
+          k.compression_algorithms_server_to_client, k.languages_client_to_server, k.languages_server_to_client]
+    return '%s %s %d %d' % (hx(k.cookie), '|'.join(_show_vec(v) for v in vs), int(k.first_kex_packet_follows), k.reserved)
+
+
+def hassh_cmd(h, side):
+    from cryptoparser.ssh.subprotocol import SshKeyExchangeInit
+    k, _ = SshKeyExchangeInit.parse_immutable(bytes.fromhex(h))
+    return k.hassh_server if side == 's' else k.hassh
+
+
+def _host_key(cls, alg, key):
+    return cls(alg, key)
+
+
+def rsa_blob(e, n):
+    from cryptodatahub.common.key import PublicKey, PublicKeyParamsRsa
+    from cryptodatahub.ssh.algorithm import SshHostKeyAlgorithm
+    from cryptoparser.ssh.key import SshHostKeyRSA
+    k = SshHostKeyRSA(SshHostKeyAlgorithm.SSH_RSA, PublicKey.from_params(PublicKeyParamsRsa(public_exponent=int(e), modulus=int(n))))
+    return k
+
+
+def dss_blob(p, q, g, y):
+    from cryptodatahub.common.key import PublicKey, PublicKeyParamsDsa
+    from cryptodatahub.ssh.algorithm import SshHostKeyAlgorithm
+    from cryptoparser.ssh.key import SshHostKeyDSS
+    return SshHostKeyDSS(SshHostKeyAlgorithm.SSH_DSS, PublicKey.from_params(PublicKeyParamsDsa(prime=int(p), generator=int(g), order=int(q), public_key_value=int(y))))
+
+
+def ed_blob(kh):
+    from cryptodatahub.common.key import PublicKey, PublicKeyParamsEddsa
+    from cryptodatahub.common.algorithm import NamedGroup
+    from cryptodatahub.ssh.algorithm import SshHostKeyAlgorithm
+    from cryptoparser.ssh.key import SshHostKeyEDDSA
+    return SshHostKeyEDDSA(SshHostKeyAlgorithm.SSH_ED25519, PublicKey.from_params(PublicKeyParamsEddsa(curve_type=NamedGroup.CURVE25519, key_data=bytes.fromhex(kh))))
+
+
+def blob_cmd(fn):
+    return lambda *a: hx(fn(*a).key_bytes)
+
+
+# ---- DNS records ---------------------------------------------------------------------------------------
+def _labels(name):
+    return [] if name == '-' else [bytes.fromhex(h).decode('ascii') for h in name.split(',')]
+
+
+def _dns_enum(enum_cls, code):
+    for m in enum_cls:
+        if m.value.code == code:
+            return m
+    raise TypeError('not constructible')
+
+
+def keytag_cmd(h):
+    from cryptoparser.dnsrec.record import DnsRecordDnskey
+    rec = DnsRecordDnskey.parse_exact_size(bytes.fromhex(h))
+    if bytes(rec.compose()) != bytes.fromhex(h):
+        raise TypeError('rdata is not in canonical form')
+    return str(rec.key_tag)
+
+
+def ds_enc(kt, a, d, dg):
+    from cryptodatahub.dnsrec.algorithm import DnsSecAlgorithm, DnsSecDigestType
+    from cryptoparser.dnsrec.record import DnsRecordDs
+    return hx(DnsRecordDs(int(kt), _dns_enum(DnsSecAlgorithm, int(a)), _dns_enum(DnsSecDigestType, int(d)), bytes.fromhex('' if dg == '-' else dg)).compose())
+
+
+def mx_enc(pref, name):
+    from cryptoparser.dnsrec.record import DnsRecordMx, DnsNameUncompressed
+    return hx(DnsRecordMx(int(pref), DnsNameUncompressed(_labels(name))).compose())
+
+
+def name_enc(name):
+    from cryptoparser.dnsrec.record import DnsNameUncompressed
+    return hx(DnsNameUncompressed(_labels(name)).compose())
+
+
+def txt_enc(h):
+    from cryptoparser.dnsrec.record import DnsRecordTxt
+    return hx(DnsRecordTxt(bytes.fromhex('' if h == '-' else h).decode('ascii')).compose())
+
+
+def rrsig_enc(ty, alg, labels, ttl, ex, inc, kt, name, sig):
+    from cryptodatahub.dnsrec.algorithm import DnsSecAlgorithm, DnsRrType
+    from cryptoparser.dnsrec.record import DnsRecordRrsig, DnsNameUncompressed, DnsRrTypePrivate
+    tys = [m for m in DnsRrType if m.value.code == int(ty)]
+    return hx(DnsRecordRrsig(tys[0] if tys else DnsRrTypePrivate(int(ty)), _dns_enum(DnsSecAlgorithm, int(alg)), int(labels), int(ttl),
+                             mk_dt(ex, 0), mk_dt(inc, 0), int(kt), DnsNameUncompressed(_labels(name)), bytes.fromhex('' if sig == '-' else sig)).compose())
+
+
+def dnskey_rsa_enc(flags, alg, e, m):
+    from cryptodatahub.common.key import PublicKey, PublicKeyParamsRsa
+    from cryptodatahub.dnsrec.algorithm import DnsSecAlgorithm
+    from cryptoparser.dnsrec.record import DnsRecordDnskey, DnsSecFlag, DnsSecProtocol
+    fl = [f for f in DnsSecFlag if int(flags) & int(f)]
+    key = PublicKey.from_params(PublicKeyParamsRsa(public_exponent=int(e), modulus=int.from_bytes(bytes.fromhex(m), 'big')))
+    return hx(DnsRecordDnskey(fl, _dns_enum(DnsSecAlgorithm, int(alg)), key, DnsSecProtocol.V3).compose())
+
+
 # ---- framing units -----------------------------------------------------------------------------------
 def unit_class(u):
     from cryptoparser.tls.record import TlsRecord
@@ -678,6 +847,10 @@ def impl_vec_line(line):
 
 
 COMMANDS = {
+    'sshpad': ssh_pad, 'mpintspec': mpint_spec, 'kexenc': kex_enc, 'kexdec': kex_dec,
+    'rsablob': blob_cmd(rsa_blob), 'dssblob': blob_cmd(dss_blob), 'edblob': blob_cmd(ed_blob),
+    'keytag': keytag_cmd, 'dsenc': ds_enc, 'mxenc': mx_enc, 'nameenc': name_enc, 'txtenc': txt_enc, 'rrsigenc': rrsig_enc,
+    'dnskeyrsaenc': dnskey_rsa_enc,
     'chenc': ch_enc, 'chdec': ch_dec, 'ja3impl': ja3_cmd, 'shenc': sh_enc, 'certenc': cert_enc, 'shdenc': shd_enc,
     'recenc': rec_enc, 'alertenc': alert_enc, 'ccsenc': ccs_enc, 'extenc': ext_enc,
     'pframe': p_frame, 'xframe': x_frame, 'mframe': m_frame, 'cframe': c_frame,
